@@ -250,6 +250,7 @@ pub struct Order {
 	pub finalized: bool,
 	pub cert_pem: Option<String>,
 	pub csr_spki_sha256: Option<String>,
+	pub leaf_sha256: Option<String>,
 }
 
 pub struct CaState {
@@ -955,6 +956,7 @@ impl CaState {
 					finalized: false,
 					cert_pem: None,
 					csr_spki_sha256: None,
+					leaf_sha256: None,
 				};
 				self.orders.push(o.clone());
 				ev["order"] = json!(oid);
@@ -1122,12 +1124,14 @@ impl CaState {
 				let chain_len = cfg_u64(&self.cfg, "chain_len", 2) as usize;
 				let life = cfg_i64(&self.cfg, "cert_lifetime_s", 90 * 86400);
 				let chain = self.pki.issue(&pubkey, &dns, &ips, -3600, life, chain_len);
+				let leaf_sha = cu::hexs(&cu::sha256(&chain[0].to_der().unwrap()));
 				let mut pem = chain_pem(&chain);
 				if !cfg_bool(&self.cfg, "cert_trailing_nl", true) {
 					pem = pem.trim_end().to_string();
 				}
 				let o = &mut self.orders[id];
 				o.cert_pem = Some(pem);
+				o.leaf_sha256 = Some(leaf_sha);
 				o.csr_spki_sha256 = Some(cu::hexs(&cu::sha256(&info.spki_der)));
 				o.finalized = true;
 				o.status = if cfg_str(&self.cfg, "finalize_returns", "processing") == "valid" {
@@ -1150,6 +1154,7 @@ impl CaState {
 				let pem = self.orders[id].cert_pem.clone().unwrap();
 				ev["order"] = json!(id);
 				ev["accept"] = json!(req.header("accept"));
+				ev["leaf_sha256"] = json!(self.orders[id].leaf_sha256);
 				Resp {
 					status: 200,
 					headers: vec![("Content-Type".into(), "application/pem-certificate-chain".into())],
